@@ -86,7 +86,11 @@ def _normalize_parsed_items(
             if isinstance(measure.value, int):
                 scale = field_scaling.get(measure.obis, None)
                 if scale:
-                    dictionary[element_name] = measure.value * (10**scale)
+                    dictionary[element_name] = (
+                        measure.value * (10**scale)
+                        if scale > 0
+                        else measure.value / (10**-scale)
+                    )
                 else:
                     dictionary[element_name] = measure.value
             else:
